@@ -98,7 +98,7 @@ impl MDBShardInfo {
 
 //@ extract mdb_shard/src/shard_format.rs in `impl MDBShardInfo` fn chunk_hash_dedup_query
 //@ ret r
-//@ rules R4h
+//@ rules shq.R4h
 //@ contract
         ensures
             final(reader).bytes() == old(reader).bytes(),
